@@ -6,6 +6,7 @@ package main
 
 import (
 	"bytes"
+	"encoding/pem"
 	"fmt"
 
 	"github.com/foxboron/go-uefi/efi/signature"
@@ -53,6 +54,7 @@ func buildESL(sc M) ([]byte, []eslRec) {
 		if eff < 0 {
 			eff = 16
 		}
+		content := str(r, "content")
 		for j := 0; j < rec.n && eff > 0; j++ {
 			if eff >= 16 {
 				o := []string{"o1", "o2", "o3"}[(k+j)%3]
@@ -60,7 +62,19 @@ func buildESL(sc M) ([]byte, []eslRec) {
 				if eff == 16 {
 					id = "empty"
 				}
+				if content == "dup" {
+					o, id = "o1", fmt.Sprintf("dup%d_%d", k, eff-16)
+				}
 				d := prbytes(id, eff-16)
+				if content == "pem" && eff-16 >= 200 {
+					// certificate data that is PEM text of exactly the entry's length
+					inner := prbytes(id, (eff-16-80)*3/4-6)
+					p := pem.EncodeToMemory(&pem.Block{Type: "CERTIFICATE", Bytes: inner})
+					for len(p) < eff-16 {
+						p = append(p, '\n')
+					}
+					d = p[:eff-16]
+				}
 				registerData(id, d)
 				b.Write(wire(ownerGUIDWire, o))
 				b.Write(d)
